@@ -36,6 +36,14 @@ FAULTS = [
 FAULTS[3] = ("type", "not 1", "rt")
 
 
+# a fault inside a function that a NATIVE library function calls back (two lines below the call)
+CALLBACKS = ["sorted([2, 1], key = fn(x) do\n  x;\n  undefined_name\nend)",
+             "sorted([2, 1], cmp = fn(p, q) do\n  p;\n  error 'boom'\nend)",
+             "find([1, 2], 2, key = fn(x) do\n  x;\n  not 1\nend)",
+             "find_last([1, 2], 2, key = fn(x) do\n  x;\n  undefined_name\nend)",
+             "eval(parse('def g(x) do\\n  x;\\n  undefined_name\\nend;\\ng(1)'))"]
+
+
 def bounds(tier):
     return {"gap_len": 2 if tier == "quick" else 3, "seeds": len(T.SEEDS),
             "fault_programs": len(FAULTS) + 1}
@@ -61,6 +69,9 @@ def cells(tier, seed):
     for q in ("'", '"'):
         for n in range(1, b["gap_len"] + 1):
             out.append({"k": "strnl", "quote": q, "n": n})
+    for i in range(len(CALLBACKS)):
+        for n in range(0, b["gap_len"] + 1):
+            out.append({"k": "callback", "i": i, "n": n})
     for i in range(len(INNER)):
         for n in range(1, b["gap_len"] + 1):
             out.append({"k": "inner", "i": i, "n": n})
@@ -238,6 +249,27 @@ def run(ctx, cell):
             ctx.check(e.pos.line == exp, "C20:module:wrong-line",
                       lambda: {"reported": int(e.pos.line), "expected": int(exp)})
         return [out.kind, str(e.pos.filename) if e.pos is not None else None]
+    if k == "callback":
+        ctx.reach("fault")
+        g = ctx.str("g", cell["n"])
+        T.layout_ok(ctx, g)
+        src = CALLBACKS[cell["i"]]
+        text = "def a = 1;" + g + "def r = " + src
+        base = 1 + count_nl(list(g))
+        out = run_ckl(text, name="prog.ckl")
+        key = "C20:callback[%s]" % src.split("(")[0]
+        detail = lambda: {"text": str(text), "reported": str(out.exc.pos) if out.exc is not None else None,
+                          "expected_line": int(base + 2)}
+        if out.kind != "rt" or out.exc.pos is None:
+            ctx.fail(key + ":unexpected-outcome-%s" % out.kind, detail)
+            return out
+        e = out.exc
+        if src.startswith("eval"):
+            # the evaluated text is its own source: its line 3
+            ctx.check(e.pos.line == 3, key + ":wrong-line", detail)
+        else:
+            ctx.check(e.pos.filename == "prog.ckl" and e.pos.line == base + 2, key + ":wrong-line", detail)
+        return [out.kind, e.pos.line]
     if k == "strnl":
         # line breaks INSIDE a string literal count like any other: the fault sits behind a multi-line string
         ctx.reach("fault")
